@@ -81,6 +81,7 @@ func (c *BaseClient) serve() error {
 					handler.Serve(publish.Message)
 				}
 			case QoS1:
+				id := publish.Message.ID
 				// Ownership of the message is now transferred to the receiver.
 				c.mu.RLock()
 				handler := c.handler
@@ -88,7 +89,7 @@ func (c *BaseClient) serve() error {
 				if handler != nil {
 					handler.Serve(publish.Message)
 				}
-				pktPubAck := (&pktPubAck{ID: publish.Message.ID}).Pack()
+				pktPubAck := (&pktPubAck{ID: id}).Pack()
 				if err := c.write(pktPubAck); err != nil {
 					return wrapError(err, "sending PUBACK")
 				}
